@@ -245,6 +245,13 @@ static void op_pcr(World *w, Buf *b) {
         w_run(w, b); }
     else if (k < 7) { cmd_begin(b, ST_SESSIONS, CC_PCR_Event); b_u32(b, 10 + rnd(3)); auth_pw_s(b, ""); b_2b(b, "event data", rnd(11)); w_run(w, b); }
     else if (k < 9) { cmd_begin(b, ST_SESSIONS, CC_PCR_Reset); b_u32(b, chance(70) ? 16 : (chance(50) ? 23 : 5)); auth_pw_s(b, ""); w_run(w, b); }
+    else if (chance(40)) { /* PCR_Allocate: takes effect at the next TPM Reset only */
+        static const uint16_t algs[] = {ALG_SHA1, ALG_SHA256, ALG_SHA384, ALG_SHA512};
+        unsigned sel = 1 + rnd(15);
+        cmd_begin(b, ST_SESSIONS, CC_PCR_Allocate); b_u32(b, RH_PLATFORM); auth_pw_s(b, w->platformAuth);
+        b_u32(b, 4);
+        for (int i = 0; i < 4; i++) { b_u16(b, algs[i]); b_u8(b, 3); uint8_t v = (sel >> i) & 1 ? 0xff : 0; b_u8(b, v); b_u8(b, v); b_u8(b, v); }
+        w_run(w, b); }
     else { cmd_begin(b, ST_NO_SESSIONS, CC_PCR_Read); b_u32(b, 1); b_u16(b, ALG_SHA256); b_u8(b, 3); b_u8(b, 0xff); b_u8(b, 0); b_u8(b, 1); w_run(w, b); }
 }
 static void op_hierarchy(World *w, Buf *b) {
